@@ -314,7 +314,7 @@ def jobs(tier):
     out = []
     for ops in _histories(tier):
         params = {'ops': ops}
-        if tier == 'quick' and (len(ops) >= 4 or any(o[1] == 'add@' for o in ops)):
+        if (tier == 'quick' and (len(ops) >= 4 or any(o[1] == 'add@' for o in ops))) or len(ops) >= 8:
             params['horizon'] = '1/2'       # many coinciding deadlines: each one forks on the latencies
             if any(o[1] == 'add@' and o[3] == '10ms' for o in ops):
                 params['horizon'] = '11/50'  # a 10 ms timer: every call adds a symbolic latency to all later queries
